@@ -1541,3 +1541,27 @@ class addstr:
         yield "size-untouched", both(s.width == old.width, s.height == old.height)
         n = tlen(a.data) if getattr(a.data, "is_text", False) else Q.seq_len(a.data)
         yield "nothing-written-nothing-changes", implies(n == 0, pframe(old, s))
+
+
+# Reachability (vacuity) checks of this file run against path conditions that carry quantified facts (GI, the CSI
+# buffer invariant, callee clauses): they normally answer in about a second; the budget is the full obligation
+# budget so that a loaded machine does not turn a `covered` into `uncovered` (run-time tuning, no semantic content).
+for _c in list(REGISTRY.values()):
+    if getattr(_c, "defined_in", None) == __name__ and not _c.assumed:
+        _c.cover_timeout_ms = 60000
+
+
+def small_grid_witness(st):
+    """Witness scenario for the vacuity guards (engine.State.cover): a 1 x 1 terminal with an empty scroll-back and
+    one tab-stop byte.  `pc AND witness` satisfiable implies `pc` satisfiable, so this can only turn an `unknown`
+    into `covered`; where the scenario does not fit a path the plain check decides as before."""
+    s = (st.ex.inputs or {}).get("self")
+    if s is None or "width" not in getattr(s, "fields", {}):
+        return ()
+    out = [s.width == 1, s.height == 1, s.scrolling_up == 0, Q.seq_len(s.scrollback_buffer.seq) == 0, _nlen(s.tabstops) == 1, s.term_cursor[0] == 0, s.term_cursor[1] == 0]
+    return [c for c in out if not isinstance(c, bool)]
+
+
+for _c in list(REGISTRY.values()):
+    if getattr(_c, "defined_in", None) == __name__ and not _c.assumed and _c.self_shape is PTERM:
+        _c.cover_witness = small_grid_witness
